@@ -727,6 +727,10 @@ class Machine:
             return self.loop(fn, n, st, rest)
         if k == 'BreakStmt' and self.allow_break:
             return ('break',)
+        if k == 'ContinueStmt' and self.bvn > 0:
+            return ('continue',)                            # handled by the loop summary (guards the rest of the body)
+        if k == 'BreakStmt' and self.bvn > 0:
+            return ('brk',)                                 # handled by the loop summary (sum over a prefix)
         if k in ('WhileStmt', 'DoStmt', 'SwitchStmt', 'CXXForRangeStmt', 'CXXTryStmt', 'BreakStmt', 'ContinueStmt', 'GotoStmt'):
             raise Unsupported('%s at %s' % (k, fn.where(n)))
         # expression statement
@@ -848,8 +852,6 @@ class Machine:
                 t = fn.strip(x['ch'][0])
                 if t is not None and t['k'] == 'DeclRefExpr' and t.get('did') in st['env']:
                     assigned.add(t['did'])
-            elif x['k'] in ('BreakStmt', 'ContinueStmt'):
-                raise Unsupported('break/continue in a summarised loop at ' + fn.where(x))
         assigned.discard(d['did'])
         strides = {}
         for rnd in (0, 1):
@@ -881,6 +883,11 @@ class Machine:
                             raise Unsupported('pointer stride is not constant at ' + fn.where(n))
                         strides[v] = dlt.cval()
         is_lc = lambda a: isinstance(a, tuple) and a and a[0] == 'lc'
+        # `if (c(i)) continue;` guards the rest of the body (the merge above already made every later effect conditional);
+        # `if (c(i)) break;` additionally ends the loop at the first such i: sums become sums over that prefix
+        r, brk = _strip_loop_tokens(r)
+        if brk is not None and (r is not FALL or len(s['heap']) != h0):
+            raise Unsupported('break combined with a return or a store in a summarised loop at ' + fn.where(n))
         # accumulators
         for v in assigned:
             old = st['env'][v]
@@ -908,7 +915,10 @@ class Machine:
                 else:
                     st['env'][v] = old * Poly.atom(('app', 'pow', fac.key(), cnt.key()))
                 continue
-            st['env'][v] = old + self.summ(bv, lo, hi, term)
+            if brk is not None:
+                st['env'][v] = old + Poly.atom(('sum_until', lo.key(), hi.key(), repr(brk), term.key()))
+            else:
+                st['env'][v] = old + self.summ(bv, lo, hi, term)
         # stores
         written = [k for k, v, q in s['heap'][h0:] if isinstance(k, tuple) and k and k[0] == 'I']
         if written:
@@ -1390,6 +1400,31 @@ def ite_ret(c, r1, r2):
     if r1 is FALL or r2 is FALL:
         return ('ret?', c, r1, r2)
     return ite(c, r1, r2)
+
+
+def _strip_loop_tokens(r):
+    """remove the ('continue',) / ('brk',) markers from the result of a loop body: returns (result, break condition or
+    None).  A continue is a fall-through of the iteration; a break is reported with the condition under which it is taken"""
+    if r == ('continue',):
+        return FALL, None
+    if r == ('brk',):
+        raise Unsupported('unconditional break in a summarised loop')
+    if isinstance(r, tuple) and r and r[0] == 'ret?':
+        a, ba = _strip_loop_tokens(r[2]) if r[2] != ('brk',) else (FALL, r[1])
+        b, bb = _strip_loop_tokens(r[3]) if r[3] != ('brk',) else (FALL, b_not(r[1]))
+        if ba is not None and bb is not None:
+            raise Unsupported('two break conditions in a summarised loop')
+        brk = ba if ba is not None else bb
+        if r[2] != ('brk',) and ba is not None:
+            brk = b_and(r[1], ba) if 'b_and' in globals() else ba
+        if r[3] != ('brk',) and bb is not None:
+            brk = b_and(b_not(r[1]), bb) if 'b_and' in globals() else bb
+        if a is FALL and b is FALL:
+            return FALL, brk
+        return ite_ret(r[1], a, b), brk
+    if isinstance(r, tuple) and (('continue',) in r or ('brk',) in r):
+        raise Unsupported('continue / break mixed with a return value in a summarised loop')
+    return r, None
 
 
 def split_ret(r):
